@@ -156,6 +156,7 @@ def a_new_cells(m, op):
     s = sp(m, op["space"])
     c = rm.RCells(op["name"], op.get("formula"), op.get("is_cached", True))
     c.space = s
+    c.pname = op["name"]      # the name baked into the probe calls of the rendered formula
     s.cells[op["name"]] = c
 
 
@@ -194,6 +195,7 @@ def a_set_formula(m, op):
     s = sp(m, op["space"])
     c = _define(m, s, op["name"])
     c.formula = op.get("formula")
+    c.pname = op["name"]
     for k in [k for k in s.inputs if k[0] == op["name"]]:
         del s.inputs[k]
 
